@@ -276,6 +276,7 @@ Proof.
   - rewrite (eval_list_sim a b es H), O. destruct (eval_list b es); simpl; [|reflexivity].
     constructor; simpl; auto.
   - rewrite (eval_sim a b e H), O. destruct (eval b e) as [v|x]; simpl; [|reflexivity].
+    destruct (negb (int_ok v)); simpl; [reflexivity|].
     unfold nested_self_g. rewrite (ss_funcs _ _ G).
     destruct (alookup (method_key t m) (s_funcs gb)) as [fe|]; simpl; [|rewrite O; reflexivity].
     rewrite S.
@@ -315,7 +316,7 @@ Proof.
   - destruct (m_void (fe_meth fe)); simpl.
     + split; [assumption|reflexivity].
     + rewrite (eval_sim fa' fb' _ E). destruct (eval fb' (m_ret (fe_meth fe))) as [z|x]; simpl.
-      * split; [assumption|reflexivity].
+      * destruct (int_ok z); simpl; [split; [assumption|reflexivity]|rewrite (fs_out _ _ E); reflexivity].
       * rewrite (fs_out _ _ E). reflexivity.
   - assumption.
 Qed.
